@@ -1951,7 +1951,7 @@ static void state_read_content(struct snapraid_state* state, const char* path, S
 					/* LCOV_EXCL_STOP */
 				}
 
-				if (v_idx + v_count > file->blockmax) {
+				if (v_count > file->blockmax || v_idx > file->blockmax - v_count) {
 					/* LCOV_EXCL_START */
 					decoding_error(path, f);
 					log_fatal("Internal inconsistency: Block number out of range\n");
@@ -1959,7 +1959,7 @@ static void state_read_content(struct snapraid_state* state, const char* path, S
 					/* LCOV_EXCL_STOP */
 				}
 
-				if (v_pos + v_count > blockmax) {
+				if (v_count > blockmax || v_pos > blockmax - v_count) {
 					/* LCOV_EXCL_START */
 					decoding_error(path, f);
 					log_fatal("Internal inconsistency: Block size %u/%u!\n", blockmax, v_pos + v_count);
@@ -2083,7 +2083,7 @@ static void state_read_content(struct snapraid_state* state, const char* path, S
 					/* LCOV_EXCL_STOP */
 				}
 
-				if (v_pos + v_count > blockmax) {
+				if (v_count > blockmax || v_pos > blockmax - v_count) {
 					/* LCOV_EXCL_START */
 					decoding_error(path, f);
 					log_fatal("Internal inconsistency: Info size %u/%u!\n", blockmax, v_pos + v_count);
@@ -2181,7 +2181,7 @@ static void state_read_content(struct snapraid_state* state, const char* path, S
 					/* LCOV_EXCL_STOP */
 				}
 
-				if (v_pos + v_count > blockmax) {
+				if (v_count > blockmax || v_pos > blockmax - v_count) {
 					/* LCOV_EXCL_START */
 					decoding_error(path, f);
 					log_fatal("Internal inconsistency: Hole size %u/%u!\n", blockmax, v_pos + v_count);
